@@ -813,15 +813,22 @@ var c03RawAlpha = []byte{0x00, 0x01, 0x02, 0x08, 0x09, 0x0A, 0x80, 0x81, 0x82, 0
 var c03RawAlpha8 = []byte{0x00, 0x01, 0x80, 0x81, 0x82, 0x88, 0x89, 0x8A}
 
 func c03RawOne(c *fw.Ctx, sink *xportSink, client bool, comp string, raw []byte) {
+	c03RawOneBufs(c, sink, client, comp, raw, []int{4096})
+}
+
+// c03RawOneBufs: as c03RawOne with the caller's read buffer sizes given.
+func c03RawOneBufs(c *fw.Ctx, sink *xportSink, client bool, comp string, raw []byte, bufs []int) {
 	cfg := recv.Config{ReceiverIsClient: client, Deflate: comp != "off", PeerNoContextTakeover: comp == "no-takeover"}
 	t := recv.Run(raw, cfg)
 	c.AddTraces(1)
 	base := c03Case{Client: client, Comp: comp, Raw: append([]byte(nil), raw...), IsRaw: true}
 	for _, k := range []string{"whole", "bytes"} {
-		cs := base
-		cs.Chunk = c03Chunking{Kind: k}
-		cs.Buf = 4096
-		c03One(c, sink, cs, raw, t)
+		for _, b := range bufs {
+			cs := base
+			cs.Chunk = c03Chunking{Kind: k}
+			cs.Buf = b
+			c03One(c, sink, cs, raw, t)
+		}
 	}
 }
 
